@@ -11,7 +11,7 @@ in the evidence). Everything unsupported raises mir.Unsupported -> inconclusive,
 import os
 import re
 import z3
-from mir import Unsupported, parse_fn, parse_stmt, parse_term
+from mir import parse_operand, Unsupported, parse_fn, parse_stmt, parse_term
 
 
 # ------------------------------------------------------------------ values
@@ -42,6 +42,32 @@ class Enum:
 
     def __init__(self, variant, idx, fields=()):
         self.variant, self.idx, self.fields = variant, idx, list(fields)
+
+
+class LazyEnum(Enum):
+    """an enum value whose variant is decided - by forking on a selector variable - the first time the executed code (or a
+    model) looks at it; code that never inspects the value costs no paths. options: [(variant, idx, fields_factory)]"""
+
+    def __init__(self, ctx, sel, options):
+        self._ctx, self._sel, self._options, self._forced = ctx, sel, options, None
+
+    def _force(self):
+        if self._forced is None:
+            n = len(self._options)
+            self._ctx.assume(z3.ULT(self._sel, z3.BitVecVal(n, self._sel.size())))
+            k = self._ctx.choose(self._sel, list(range(n)))
+            var, idx, fac = self._options[k]
+            self._forced = (var, idx, list(fac()))
+        return self._forced
+
+    variant = property(lambda self: self._force()[0])
+    idx = property(lambda self: self._force()[1])
+    fields = property(lambda self: self._force()[2])
+
+    def describe(self, model):
+        if self._forced is None:
+            return "any"
+        return self._forced[0]
 
 
 class Cell:
@@ -124,6 +150,8 @@ def copy_val(v):
         if hasattr(v, "fn_name"):
             a.fn_name = v.fn_name
         return a
+    if isinstance(v, LazyEnum) and v._forced is None:
+        return v  # still undecided: copies share the decision
     if isinstance(v, Enum):
         return Enum(v.variant, v.idx, [copy_val(x) for x in v.fields])
     return v
@@ -392,6 +420,14 @@ class Interp:
             elif k == "call":
                 dest, callee, argops, ret = t[1], t[2], t[3], t[4]
                 args = [self.operand(fr, a) for a in argops]
+                if re.fullmatch(r"(copy|move) _\d+", callee.strip()):
+                    # an indirect call through a fn pointer held in a local
+                    fp = self.operand(fr, parse_operand(callee.strip()))
+                    if getattr(fp, "name", None) != "fn-item":
+                        raise Unsupported(f"indirect call through {type(fp).__name__}")
+                    callee = fp.fn_name
+                    if callee not in self.raw and callee.split("::")[-1] in self.raw and len(self.raw[callee.split("::")[-1]]) == 1:
+                        callee = callee.split("::")[-1]  # a free function is named by its last path segment in the dump
                 val = self.dispatch(callee, args)
                 self.place(fr, dest).set(val)
                 if ret is None:
@@ -507,6 +543,16 @@ class Interp:
                 return model(self, norm, args, m)
         if callee in self.raw:
             return self.call_fn(callee, args)
+        if strip_turbofish(callee) in self.raw and re.fullmatch(r"[\w:]+", strip_turbofish(callee)):
+            return self.call_fn(strip_turbofish(callee), args)  # a generic free function: `run_on_chunk::<L>`
+        cm = re.match(r"^<\{closure@[^}]*\} as ([\w:]+)(?:<.*>)?>::(\w+)$", callee)
+        if cm:
+            # a trait method on a closure type: the blanket impl of that trait
+            trait, meth = cm.group(1).split("::")[-1], cm.group(2)
+            cs = [n for n in self.raw if n.endswith("::" + meth) and "{closure" not in n and self.impl_trait(n) == trait
+                  and re.fullmatch(r"[A-Z]\w?", self.impl_type(n) or "")]
+            if len(cs) == 1:
+                return self.call_fn(cs[0], args)
         # dynamic dispatch: `<P as Trait>::method` with a generic / impl / dyn / smart-pointer self type - decided by the
         # run-time value of the receiver (generic MIR is not monomorphised)
         dm = re.match(r"^<(dyn [\w:]+|impl [\w:]+|&?(?:mut )?[A-Z]\w?|(?:Box|Rc|Arc|std::boxed::Box|std::rc::Rc)<.*>) as ([\w:]+)(?:<.*>)?>::(\w+)(?:::<.*>)?$", callee)
@@ -518,7 +564,7 @@ class Interp:
             tyname, is_closure = None, False
             if isinstance(obj, Adt):
                 is_closure = obj.name.startswith("{closure@")
-                tyname = re.sub(r"<.*>", "", obj.name).split("::")[-1]
+                tyname = [x for x in re.sub(r"<.*>", "", obj.name).split("::") if x][-1]
             elif type(obj).__name__ in ("SliceRef", "VecObj"):
                 tyname = "[T]"
             if tyname:
@@ -552,7 +598,10 @@ class Interp:
                 lines = open(os.path.join(self.repo_root, key[0])).read().split("\n")
                 text = " ".join(lines[key[1] - 1:key[1] + 2])
                 mm = re.match(r"\s*(?:unsafe\s+)?impl(?:<[^{]*?>)?\s+(?:(?:[\w:]+(?:<[^{]*?>)?)\s+for\s+)?(&?\[?[\w:]+\]?)", text)
-                if mm:
+                mg = re.match(r"\s*merge_linters!\s*\(\s*(\w+)\s*=>", text)
+                if mg:
+                    ty = mg.group(1)  # `merge_linters!(Name => A, B => "..")` generates `struct Name` and its impls
+                elif mm:
                     ty = mm.group(1).split("::")[-1]
                 else:
                     # derive-generated impl: the span is the derive attribute; the type is the item that follows
@@ -578,7 +627,9 @@ class Interp:
                 lines = open(os.path.join(self.repo_root, m.group(1))).read().split("\n")
                 text = " ".join(lines[int(m.group(2)) - 1:int(m.group(2)) + 2])
                 mm = re.match(r"\s*(?:unsafe\s+)?impl(?:<[^{]*?>)?\s+([\w:]+)(?:<[^{]*?>)?\s+for\s+", text)
-                if mm:
+                if re.match(r"\s*merge_linters!\s*\(", text):
+                    t = {"lint": "Linter", "description": "Linter", "default": "Default"}.get(fn_name.split("::")[-1])
+                elif mm:
                     t = mm.group(1).split("::")[-1]
             except OSError:
                 pass
@@ -607,11 +658,19 @@ class Interp:
             ty = m2.group(1) if m2 else (re.match(r"^(\w+)::", callee) or [None, None])[1]
             if cands and ty:
                 base = re.sub(r"<.*>", "", ty).strip().lstrip("&").replace("mut ", "").strip()
-                cands = [n for n in cands if self.impl_type(n) == base]
-                if len(cands) == 1:
-                    return self.call_fn(cands[0], args)
-                if len(cands) > 1:
-                    raise Unsupported(f"ambiguous harper callee `{callee}`: {cands[:4]}")
+                exact = [n for n in cands if self.impl_type(n) == base]
+                if len(exact) == 1:
+                    return self.call_fn(exact[0], args)
+                if len(exact) > 1:
+                    raise Unsupported(f"ambiguous harper callee `{callee}`: {exact[:4]}")
+                m3 = re.match(r"^<.+? as ([\w:]+)(?:<.*>)?>::", callee)
+                if m3 and base in self.harper_types:
+                    # no impl for the concrete harper type: a blanket impl `impl<P: ..> Trait for P` (not the one for closures)
+                    trait = m3.group(1).split("::")[-1]
+                    blanket = [n for n in cands if self.impl_trait(n) == trait and re.fullmatch(r"[A-Z]\w?", self.impl_type(n) or "")
+                               and not self.impl_is_blanket_for_closure(n)]
+                    if len(blanket) == 1:
+                        return self.call_fn(blanket[0], args)
         return NOTHING
 
     def call_closure(self, clos, args):
@@ -724,6 +783,11 @@ class Interp:
             return Adt(ty, [])
         if s == "()":
             return ()
+        bm = re.fullmatch(r'b"((?:[^"\\]|\\.)*)"', s)
+        if bm:
+            # a byte-string constant (e.g. a format_args! template)
+            import ast
+            return ast.literal_eval('b"' + bm.group(1) + '"')
         sm = re.fullmatch(r'"((?:[^"\\]|\\.)*)"', s)
         if sm:
             from models import StringObj
@@ -745,6 +809,12 @@ class Interp:
                 pass
         if re.fullmatch(r"[\w:]+", s) and s.split("::")[-1] in self.harper_types:
             return Adt(s.split("::")[-1], [])  # a unit struct
+        ci = re.fullmatch(r"(?:[\w]+::)*([A-Z][A-Z0-9_]*)", s)
+        if ci and ci.group(1) in self.raw and self.raw[ci.group(1)][0][0].startswith("fn " + ci.group(1) + "() -> "):
+            # a `const NAME: T = ..` item (loaded as a parameterless function); refused when the name is not unique
+            if len(self.raw[ci.group(1)]) != 1:
+                raise Unsupported(f"constant {s}: several items of that name")
+            return self.call_fn(ci.group(1), [])
         tl = re.fullmatch(r"[\w:<>, ]+::([A-Z][A-Z0-9_]+)", s)
         if tl:
             a = Adt("LocalKey", [])
